@@ -4,8 +4,8 @@
    theorems below — every place where the Go code ranges over a map is insensitive to the iteration order —
    and (b) the `determinism` projection: repeated evaluation on fresh plugin instances, byte comparison. *)
 From stdpp Require Import gmap.
-From DS Require Import Base Decimal StreamValue Sort Aggregators Outcome OutcomeProofs OutcomeOrder.
-From DS Require MercuryAgg MercuryAggProofs ModeProofs.
+From DS Require Import Base Decimal StreamValue Sort Aggregators Outcome OutcomeProofs OutcomeOrder StepOrder NvHistory.
+From DS Require MercuryAgg MercuryAggProofs ModeProofs CasesOutCodec.
 Open Scope Z_scope.
 
 (* sort.Slice over entries with pairwise distinct keys (strict total order): one result whatever the input order *)
@@ -26,6 +26,30 @@ Theorem C01_new_defs_order_independent : forall h,
   new_defs_ordered h f retired prev obs removal_order cand_order = new_defs h f retired prev obs.
 Proof. exact new_defs_order_independent. Qed.
 Print Assumptions C01_new_defs_order_independent.
+
+(* the WHOLE Plugin.outcome step: all five range-over-map sites of outcome() iterate in arbitrary orders `o`
+   (each a permutation of the entries of the map it ranges over); the committed outcome is the same, and a round
+   that fails fails under every order (res_equiv identifies error kinds: which message is produced first may differ) *)
+Theorem C01_outcome_step_order_independent : forall h,
+  (forall c d1 d2, h c d1 = h c d2 -> d1 = d2) ->
+  forall o cf seq prev aos,
+  (forall rr obs retired, accept_observations (c_has_pred cf) aos = Ok (rr, obs) ->
+     orders_valid o cf prev obs (new_defs h (c_f cf) retired (o_defs prev) obs)) ->
+  res_equiv (outcome_step_ordered h o cf seq prev aos) (outcome_step h cf seq prev aos).
+Proof. exact outcome_step_order_independent. Qed.
+Print Assumptions C01_outcome_step_order_independent.
+
+(* the individual range sites *)
+Theorem C01_aggregation_loop_order_independent : forall f prev obs (defs : gmap Z chandef) (order : list (Z * chandef)),
+  Permutation order (map_to_list defs) ->
+  res_equiv (aggs_ordered f prev obs order) (collect_aggs f prev obs (referenced_pairs defs)).
+Proof. exact aggs_order_independent. Qed.
+Theorem C01_valid_after_loops_order_independent : forall cf prev ts (va0 : gmap Z Z) (defs : gmap Z chandef) order1 order2,
+  Permutation order1 (map_to_list (o_va prev)) -> Permutation order2 (map fst (map_to_list defs)) ->
+  carry_ordered cf prev order1 =
+    map_imap (fun c pva => Some (if is_reportable prev c (c_pver cf) (c_interval cf) then o_ts prev else pva)) (o_va prev) /\
+  fill_ordered ts va0 order2 = va0 ∪ ((fun _ => ts) <$> defs).
+Proof. intros. split; [apply carry_order_independent|apply fill_order_independent]; assumption. Qed.
 
 (* Outcome.ReportableChannels *)
 Theorem C01_reportable_channels_order_independent : forall cf o (order : list Z),
@@ -60,3 +84,16 @@ Proof.
   exists (7, {| cd_fmt := 2; cd_streams := [(1, 1)]; cd_opts := [] |}), (7, {| cd_fmt := 2; cd_streams := [(2, 1)]; cd_opts := [] |}).
   vm_compute. intros H. discriminate.
 Qed.
+
+(* non-vacuity: round 7 of the concrete history (3 observations, remove 7 / add 8 / retire votes) evaluated with every
+   map ranged over in REVERSE order gives the same outcome as the canonical step *)
+Definition C01_nv_orders (cf : cfg) (prev : outcome) (aos : list (option observation)) : orders :=
+  let obs := match accept_observations (c_has_pred cf) aos with Ok (_, l) => l | _ => [] end in
+  let defs := new_defs nv_h (c_f cf) false (o_defs prev) obs in
+  {| ord_rm := rev (removed_ids (c_f cf) obs); ord_cand := rev (update_candidates obs);
+     ord_carry := rev (map_to_list (o_va prev)); ord_fill := rev (map fst (map_to_list defs)); ord_aggs := rev (map_to_list defs) |}.
+Example C01_nv_step :
+  match outcome_step_ordered nv_h (C01_nv_orders nv_cf p2 a3) nv_cf 3 p2 a3, outcome_step nv_h nv_cf 3 p2 a3 with
+  | Ok a, Ok b => CasesOutCodec.outcome_eqb a b && bool_decide (o_defs a !! 7 = Some nv_def)
+  | _, _ => false end = true.
+Proof. vm_compute. reflexivity. Qed.
